@@ -26,8 +26,8 @@ claimed = {
  "C19": ("bounded-exhaustive enumeration of option name x value x object kind x connection state on the unmodified code over all transports (engine E), each case in a worker subprocess with replay confirmation",
          "41 option names (documented, transport specific, arbitrary) x 23 values (wrong types, nil, negative, zero, boundary, huge) on all 24 sockets, 5 context kinds, dialers and listeners of 6 transports and attached pipes, before and after connecting: no panic, no hang, unsupported name => ErrBadOption, wrong type/out of range => ErrBadValue, Get returns what Set accepted, socket options inherited by later dialers/listeners and (where the pattern provides it) contexts, accepted zero durations mean no limit, queue resizes on connected idle/loaded sockets never detach the peer and traffic still flows, unsupported operations and Device misuse give the designated error without side effect (after a refused Device every message a peer sends must still reach the application: a forwarder left running would steal them). Engine S adds: the receive limit set through socket / endpoint before / after start (also lifted again by an accepted zero) is obeyed by the next connection of the real tcp and IPC pipes over the in-memory network.",
          "DESIGN.md §6 C19"),
- "C10": ("stateless model checking of the rewritten real code: deviation-bounded exploration of Close against blocked Send/Recv on all 24 socket kinds and contexts, exhaustive listener/dialer/pipe/hook histories ending in socket Close, each followed by a resource census (threads by creation site, timers, connections, listening addresses, pipe ids, pipe lists)",
-         "For every socket constructor (and context) calls are blocked in Recv and Send, Close runs concurrently and is placed at every scheduling point within the bound: every blocked call returns the closed error, Close returns, later Send/Recv/Dial/Listen/OpenContext/Close fail promptly; histories over listen, async dial (ok/refused), peer connect, hook-close, peer drop, close of listener/dialer/pipe, clock advance end with socket Close, an hour of virtual time and a census that must be empty.",
+ "C10": ("stateless model checking of the rewritten real code: deviation-bounded exploration of Close against blocked Send/Recv on all 24 socket kinds and contexts, exhaustive listener/dialer/pipe/hook histories ending in socket Close, each followed by a resource census (threads by creation site, timers, connections, listening addresses, pipe ids, pipe lists); plus exhaustive enumeration on the unmodified code of transport x socket kind x situation-at-Close x role over the six real transports with a goroutine / descriptor / address / pipe-id census in a fresh process per case",
+         "For every socket constructor (and context) calls are blocked in Recv and Send, Close runs concurrently and is placed at every scheduling point within the bound: every blocked call returns the closed error, Close returns, later Send/Recv/Dial/Listen/OpenContext/Close fail promptly; histories over listen, async dial (ok/refused), peer connect, hook-close, peer drop, close of listener/dialer/pipe, clock advance end with socket Close, an hour of virtual time and a census that must be empty. Engine E: 6 transports x 13 (24) kinds x {idle, blocked Recv, blocked context Recv, blocked Send, redialling dialer, stalled inbound handshake (pre/post TLS, pre upgrade), peer failed first, stalled outbound handshake} x {listening, dialling}, one process per case: calls unblock with the closed error, later calls fail promptly, no goroutine with a mangos frame, descriptor count back at baseline, addresses re-bindable, raw connections see EOF, no pipe id in use, no late dial attempt.",
          "DESIGN.md §6 C10"),
  "C12": ("stateless model checking of the rewritten real code with a lock-leak monitor: exhaustive enumeration of socket kind x provoked API failure (x second failure) followed by every other API call; configuration-error paths of the real tcp/tls/ipc/ws/wss wrappers run under the same monitor",
          "18 ways of making an API call fail (bad address, unknown scheme, address in use then corrected and retried on the same listener, refused then retried, handshake failure, asynchronous refusals, hook-closed pipe, peer drop, send/receive timeout, protocol state, unsupported operation, bad option/value, closed context/listener/dialer/pipe) on each of the 24 socket kinds, each followed by option calls, OpenContext, a new inbound connection that must attach, a receive and a send that must reach the peer, Dial and Listen; the shim mutex knows its owner, so a call that returns (or a thread that exits) while holding a library mutex, or re-locks one it holds, is reported at once; TLS/WSS Listen without config or certificate and bad-port/bad-path Listen/Dial on the real wrappers are followed by every option call, a retry and Close.",
@@ -76,7 +76,7 @@ claimed.update({
          "For all 12 protocol numbers (24 socket types) and both roles the first 8 bytes mangos writes are compared with the SP header; every single-byte deviation of the peer header (8x255) and every wrong-but-well-formed protocol number must be refused while a following good peer is accepted; frames mangos writes are parsed by an independent codec (8-byte BE length, 0x01 on IPC, header||body) and codec-written frames, split at every prefix position, must be delivered intact; WebSocket subprotocol negotiation and one-binary-frame-per-message are checked with a hand-written RFC 6455 endpoint.",
          "DESIGN.md §6 C15"),
 })
-ENGINE_OF = {"C01": "S+E", "C15": "S+E", "C16": "S+E", "C19": "S+E", "C20": "E"}
+ENGINE_OF = {"C01": "S+E", "C10": "S+E", "C15": "S+E", "C16": "S+E", "C19": "S+E", "C20": "E"}
 not_applicable = {}
 ALL = [f"C{i:02d}" for i in range(1, 21)]
 for pid in ALL:
